@@ -490,13 +490,14 @@ const COL_EDGES: &[u32] = &[0, 1, 2, 24, 25, 26, 27, 700, 701, 702, 703, 16382, 
 
 /// positions inside a window whose area is ≤ 2^21 cells (ledger D37), biased to the documented boundaries
 fn rand_positions(rng: &mut Rng, n: usize) -> Vec<(u32, u32)> {
-    let (h, w): (u32, u32) = match rng.below(6) {
-        0 => (rng.range(1, 6) as u32, rng.range(1, 6) as u32),
-        1 => (rng.range(1, 120) as u32, rng.range(1, 40) as u32),
-        2 => (1048576, 2),                         // all rows, two columns
-        3 => (128, 16384),                         // all columns
-        4 => (rng.range(1, 2048) as u32, 1024),    // far-apart corners
-        _ => (rng.range(1, 200) as u32, rng.range(1, 800) as u32),
+    let (h, w): (u32, u32) = match rng.below(40) {
+        0..=13 => (rng.range(1, 6) as u32, rng.range(1, 6) as u32),
+        14..=27 => (rng.range(1, 120) as u32, rng.range(1, 40) as u32),
+        28..=33 => (rng.range(1, 200) as u32, rng.range(1, 800) as u32),
+        34 | 35 => (rng.range(1, 65536) as u32, 2),     // tall
+        36 | 37 => (4, rng.range(1, 16384) as u32),     // wide: up to all columns
+        38 => *rng.pick(&[(1048576u32, 2u32), (128, 16384)]), // every row / every column in one sheet
+        _ => (rng.range(1, 2048) as u32, 1024),         // far-apart corners, up to the 2^21 cap
     };
     debug_assert!((h as u64) * (w as u64) <= 1 << 21);
     let r0 = if h == 1048576 {
@@ -786,7 +787,7 @@ fn check_file(
         let field = |k: &str| -> String { reply.split(' ').find_map(|w| w.strip_prefix(k)).unwrap_or("").to_string() };
         let mnew = field("new=");
         let mut mend = field("end=");
-        let mrange = field("range=");
+        let mut mrange = field("range=");
         let mut mcells: Vec<String> = vec![];
         let raw = field("cells=");
         if raw != "-" && !raw.is_empty() {
@@ -796,6 +797,7 @@ fn check_file(
                     Ok(v) => mcells.push(format!("{},{},{}", p[0], p[1], v)),
                     Err(()) => {
                         mend = "err:ParseFloat".into();
+                        mrange = "err:ParseFloat".into();
                         break;
                     }
                 }
@@ -1341,8 +1343,9 @@ fn malformed_case(seed: u64, rep: &mut Report, drv: &mut Driver) {
             }
         }
     }
+    let mrange = if mend == "err:ParseFloat" { "err:ParseFloat".to_string() } else { field("range=") };
     let impl_txt = format!("new={inew} end={iend} cells={} range={impl_range}", icells.join(";"));
-    let model_txt = format!("new={} end={mend} cells={} range={}", field("new="), mcells.join(";"), field("range="));
+    let model_txt = format!("new={} end={mend} cells={} range={}", field("new="), mcells.join(";"), mrange);
     rep.count(&format!("malformed-end:{}", iend.split(':').next().unwrap_or("")));
     let sheet_xml = String::from_utf8_lossy(&built.parts.iter().find(|p| p.0.to_lowercase().contains("sheet1.xml")).map(|p| p.1.clone()).unwrap_or_default()).replace('\n', "");
     if iend == "panic" || impl_range == "panic" || inew == "?" {
@@ -1350,7 +1353,6 @@ fn malformed_case(seed: u64, rep: &mut Report, drv: &mut Driver) {
     }
     // XmlEof-class endings depend on quick-xml's own end-of-input handling; compare the classes the model owns
     let same_new = inew == field("new=") || inew == "?";
-    let mrange = field("range=");
     let range_ok = mrange == "skip" || impl_range == "skip" || impl_range == "panic" || impl_range == mrange;
     let unbalanced = matches!(fname, "drop-start" | "drop-end" | "stray-start" | "truncate");
     if unbalanced && (inew == "err:Xml" || iend == "err:Xml") && !(field("new=") == "err:Xml" || mend == "err:Xml") {
